@@ -192,6 +192,11 @@ def run_solvers(c, o):
         names.append("tail")
     flow = gen_flow(rng)
     base_case = dict(surfaces=surfs, flow=flow, compressible=c["compressible"])
+    if c["seed"] % 3 == 0:
+        # a steady body rate about a user-given reference point
+        base_case["rotational"] = True
+        flow["omega"] = [float(x) for x in np.round(rng.uniform(-0.08, 0.08, 3), 4)]
+        flow["cg"] = [float(np.round(rng.uniform(0, 1.5), 3)), 0.0, float(np.round(rng.uniform(-0.3, 0.3), 3))]
     npm = 0 if two else int(rng.choice([0, 1, 2]))
     ptA = ptB = {}
     if npm:
@@ -206,7 +211,7 @@ def run_solvers(c, o):
         on = bool(rng.integers(2))
         ptA, ptB = pm(on), pm(not on)
         base_case.update(ptA)
-    tags = [s["fem_model_type"], "nsurf=%d" % len(surfs), "npm=%d" % npm]
+    tags = [s["fem_model_type"], "nsurf=%d" % len(surfs), "npm=%d" % npm] + (["rotational"] if base_case.get("rotational") else [])
     variants = [("nlbgs", "direct"), ("nlbgs_noaitken", "direct"), ("newton", "direct"), ("newton", "lbgs"), ("nlbgs", "lbgs")]
     ref_state = ref_out = None
     for nl, lin in variants:
@@ -240,6 +245,31 @@ def run_solvers(c, o):
         p.set_val("AS_point_0.coupled.aero_states.circulations", g * rng.uniform(-2, 3, g.shape))
         zoo.run(p)
         cmp(o, "path/initial_guess", state(p, names=names), ref_state, tags, what="restart from a random state")
+    # ... and from a state in which EVERY output of the coupled group (states and intermediate quantities alike, e.g. a state vector
+    # restored from another case) has been overwritten
+    import openmdao.api as om_
+    from openmdao.core.component import Component as _Component
+
+    cp = p.model.AS_point_0.coupled
+    nover = 0
+    for comp in cp.system_iter(recurse=True, typ=_Component):
+        if isinstance(comp, om_.IndepVarComp):
+            continue  # constants of the model (e.g. the zero angles of the Prandtl-Glauert frame), not computed quantities
+        for name in comp._var_abs2meta["output"]:
+            val = np.array(p.get_val(name))
+            sc = float(np.abs(val).max()) or 1.0
+            p.set_val(name, val * rng.uniform(-1, 2, val.shape) + rng.normal(size=val.shape) * 0.3 * sc)
+            nover += 1
+    o.count("outputs_of_the_coupled_group_overwritten", nover)
+    try:
+        zoo.run(p)
+        cmp(o, "path/initial_guess", state(p, names=names), ref_state, tags + ["all_outputs_overwritten"], what="restart with every output of the coupled group overwritten")
+        cmp(o, "path/initial_guess", outputs(p, names=names), ref_out, tags + ["all_outputs_overwritten"], what="restart with every output of the coupled group overwritten")
+    except zoo.NotConvergent:
+        # block Gauss-Seidel need not converge from an arbitrary state; the comparison is made only where it does
+        o.count("restarts_from_overwritten_state_not_convergent")
+        p = zoo.build_as(dict(base_case, solver=dict(nl="nlbgs", lin="direct", lin_rtol=1e-12, maxiter=400, atol=1e-10)))
+        zoo.run(p)
     # ---- arrival from other design points: A -> B (vs a fresh problem at B) -> A (vs the fresh problem at A)
     flowB = dict(flow, alpha=flow["alpha"] + float(rng.uniform(-3, 5)), v=flow["v"] * float(rng.uniform(0.7, 1.2)))
     caseB = dict(base_case, flow=flowB)
